@@ -12,7 +12,7 @@ from fractions import Fraction
 from dv import core, trees
 from dv.core import cz, cbool, clist, copt, cpair, cq, cnat
 
-HEADER = ("From DV Require Import Model.PyPrims Model.C05Model.\n"
+HEADER = ("From DV Require Import Model.PyPrims Model.C05Model Model.C05Model2.\n"
           "From Coq Require Import ZArith QArith. Open Scope Z_scope.")
 
 UNIT = Fraction(1, 1024)
@@ -74,21 +74,41 @@ def mask_of(s):
     return m
 
 
-def spec_masks(t, rooted, ntax):
+def spec_masks(t, rooted, ntax, bits=None):
     """split bitmasks of a spec tree as the library should key them (generator use only)"""
-    allm = (1 << ntax) - 1
+    bits = bits or [1 << k for k in range(ntax)]
+    allm = 0
+    for b in bits:
+        allm |= b
     out = []
     for n in trees.preorder(t):
-        m = mask_of(leafset(n))
+        m = 0
+        for x in leafset(n):
+            m |= bits[x]
         if not rooted and (m & 1):
             m = (~m) & allm
         out.append(m)
     return out
 
 
+def in_quantifier(case):
+    """the property quantifies over trees whose leaves carry exactly the taxa of the namespace;
+    namespaces with vacated bits / trees on a subset of the taxa are run for the correspondence only"""
+    if not all(case.get("layout", [True])):
+        return False
+    full = set(range(case["ntax"]))
+    return all(set(n["taxon"] for n in trees.leaves(p["tree"])) == full for p in case["pool"])
+
+
 def gen_case(rng, tier="quick", force=None):
     force = force or {}
     ntax = force.get("ntax") or rng.randint(4, 12 if rng.random() < 0.8 else 7)
+    outside = rng.random() < 0.15
+    layout = [True] * ntax
+    if outside and rng.random() < 0.6:
+        for _ in range(rng.randint(1, 3)):
+            layout.insert(rng.randint(0, len(layout)), False)
+    partial = outside and (all(layout) or rng.random() < 0.4)
     path = force.get("path") or rng.choice(["sd", "ta", "ta"])
     ages = rng.random() < 0.3
     rooting = rng.choice([True, True, False, False, None]) if rng.random() < 0.9 else "mixed"
@@ -105,7 +125,11 @@ def gen_case(rng, tier="quick", force=None):
             for n in trees.preorder(t):
                 n["len"] = rng.choice([0, 256, 512, 1024, 1536, 2048, 3072, 5120])
         else:
-            t = trees.gen_tree(rng, ntax, lengths=rng.choice(["dyadic", "dyadic", "positive", "mixed", "none"]))
+            if partial and rng.random() < 0.6:
+                sub = rng.sample(range(ntax), rng.randint(3, ntax - 1))
+                t = trees.gen_tree(rng, len(sub), lengths=rng.choice(["dyadic", "positive", "mixed"]), taxa=sub)
+            else:
+                t = trees.gen_tree(rng, ntax, lengths=rng.choice(["dyadic", "dyadic", "positive", "mixed", "none"]))
             if rng.random() < 0.3 and t["kids"]:
                 # rotate children somewhere (same topology, other postorder)
                 rng.shuffle(t["kids"])
@@ -131,13 +155,14 @@ def gen_case(rng, tier="quick", force=None):
     picks = rng.choices(range(npool), weights=bias, k=ntrees)
     cand_masks = []
     for p in pool:
-        cand_masks.extend(spec_masks(p["tree"], p["rooting"] is True, ntax))
+        cand_masks.extend(spec_masks(p["tree"], p["rooting"] is True, ntax,
+                                     [1 << i for i, real in enumerate(layout) if real]))
     cand_masks = sorted(set(cand_masks))
 
     def a_mask():
         if rng.random() < 0.8 and cand_masks:
             return rng.choice(cand_masks)
-        return rng.getrandbits(ntax)
+        return rng.getrandbits(len(layout))
 
     def threshold():
         k = rng.random()
@@ -168,11 +193,19 @@ def gen_case(rng, tier="quick", force=None):
         if k < 0.65:
             th = threshold()
             return ["Collapse", rng.randrange(npool), "default" if th is None else th]
-        if k < 0.80 and path == "ta":
+        if k < 0.74 and path == "ta":
             return ["Scores", rng.random() < 0.5, rng.random() < 0.3]
-        if k < 0.86:
+        if k < 0.78 and path == "ta":
+            return ["SetFreqs"]
+        if k < 0.82:
+            return ["TreeScore", rng.randrange(npool), rng.random() < 0.5, rng.random() < 0.3]
+        if k < 0.85:
+            return ["SupportIter", rng.randrange(npool), rng.random() < 0.5, rng.random() < 0.3]
+        if k < 0.89:
+            return ["FreqOfBip", [rng.randrange(npool) for _ in range(rng.randint(0, 8))], a_mask()]
+        if k < 0.92:
             return ["LenSummaries"]
-        if k < 0.93:
+        if k < 0.96:
             return ["Query", a_mask()]
         return ["Freqs"]
 
@@ -203,7 +236,7 @@ def gen_case(rng, tier="quick", force=None):
         ops.append(["Count", rng.randrange(npool), wt()])
         ops.append(analysis())
     return {"ntax": ntax, "path": path, "cfg": cfg, "pool": pool, "init_rooting": init_rooting,
-            "ops": ops}
+            "ops": ops, "layout": layout}
 
 
 # ----------------------------------------------------------------------------
@@ -250,6 +283,21 @@ def tree_clades(tree, idx):
     return out
 
 
+def norm_mask(m, allm, rooted):
+    """canonical non-trivial split of a leaf-set mask in real bit positions (the same function as
+    the model's nontrivial_norm): mask or None"""
+    def single_or_zero(x):
+        return (x - 1) & x == 0
+    if rooted:
+        if m == allm or single_or_zero(m):
+            return None
+        return m
+    c = (~m) & allm
+    if m == 0 or m == allm or single_or_zero(m & allm) or single_or_zero(c):
+        return None
+    return c if (m & 1) else (m & allm)
+
+
 def norm_nontrivial(s, ntax, rooted):
     """canonical non-trivial split of a leaf set: mask or None"""
     n = len(s)
@@ -272,9 +320,18 @@ class Lib:
         self.dp = dendropy
         self.case = case
         self.ntax = case["ntax"]
-        self.ns, self.taxa = trees.make_namespace(self.ntax)
-        for k, t in enumerate(self.taxa):
-            assert self.ns.taxon_bitmask(t) == 1 << k
+        self.ns = dendropy.TaxonNamespace()
+        self.taxa = []
+        for pos, real in enumerate(case.get("layout") or [True] * self.ntax):
+            if real:
+                self.taxa.append(self.ns.new_taxon("t%d" % len(self.taxa)))
+            else:
+                self.ns.remove_taxon(self.ns.new_taxon("hole%d" % pos))
+        self.bit = [self.ns.taxon_bitmask(t) for t in self.taxa]
+        self.all = self.ns.all_taxa_bitmask()
+        self.real = 0
+        for b in self.bit:
+            self.real |= b
         self.idx = {id(t): k for k, t in enumerate(self.taxa)}
         self.cfg = case["cfg"]
         self.path = case["path"]
@@ -289,6 +346,16 @@ class Lib:
         else:
             self.ta = TreeArray(is_rooted_trees=case["init_rooting"], **kw)
             self.sd = self.ta.split_distribution
+
+    def mask(self, s):
+        m = 0
+        for x in s:
+            m |= self.bit[x]
+        return m
+
+    def nclades(self, tree, rooted):
+        return sorted(set(x for x in (norm_mask(self.mask(s), self.real, rooted) for s in tree_clades(tree, self.idx))
+                          if x is not None))
 
     def build(self, i, w=None):
         p = self.case["pool"][i]
@@ -310,7 +377,7 @@ class Lib:
             e = edge_of[id(b)]
             recs.append([b.split_bitmask, qfloat(e.length),
                          qfloat(getattr(e.head_node, "age", None)) if not self.cfg["ignore_ages"] else None])
-        return recs, t.seed_node.edge.bipartition.leafset_bitmask, dump_stree(t.seed_node)
+        return recs, t.seed_node.edge.bipartition.leafset_bitmask, dump_stree(t.seed_node), t.is_unrooted
 
     def dl(self):
         d = unfr(self.cfg["default_len"])
@@ -386,12 +453,12 @@ class Lib:
             rooted = rooting is True
             leaves = sorted(self.idx.get(id(l.taxon), -1) for l in con.leaf_node_iter())
             leaves2 = sorted(self.idx.get(id(l.taxon), -1) for l in con2.leaf_node_iter())
-            clades = sorted(set(x for x in (norm_nontrivial(s, self.ntax, rooted) for s in tree_clades(con, self.idx)) if x is not None))
-            clades2 = sorted(set(x for x in (norm_nontrivial(s, self.ntax, rooted) for s in tree_clades(con2, self.idx)) if x is not None))
+            clades = self.nclades(con, rooted)
+            clades2 = self.nclades(con2, rooted)
             sup = []
             for nd in con.preorder_node_iter():
                 if nd._child_nodes and nd._parent_node is not None:
-                    sup.append([mask_of(node_leafset(nd, self.idx)), qfloat(getattr(nd, "support", None))])
+                    sup.append([self.mask(node_leafset(nd, self.idx)), qfloat(getattr(nd, "support", None))])
             return ["UConsensus", clades, rooting,
                     {"leaves": leaves, "leaves_nosumm": leaves2, "clades_nosumm": clades2,
                      "rooting_summ": con.is_rooted, "support": sup}]
@@ -410,7 +477,7 @@ class Lib:
             nodes = []
             for nd in t:
                 nodes.append({"split": nd.edge.bipartition.split_bitmask,
-                              "leafset": mask_of(node_leafset(nd, self.idx)),
+                              "leafset": self.mask(node_leafset(nd, self.idx)),
                               "is_leaf": not nd._child_nodes, "is_root": nd._parent_node is None,
                               "support": qfloat(getattr(nd, "support", None)),
                               "len": qfloat(nd.edge.length),
@@ -453,8 +520,28 @@ class Lib:
             rooted = ta._is_rooted_trees is True
             restored = []
             if rt is not None:
-                restored = sorted(set(x for x in (norm_nontrivial(s, self.ntax, rooted) for s in tree_clades(rt, self.idx)) if x is not None))
+                restored = self.nclades(rt, rooted)
             return ["UScores", sc, idx, restored, [qfloat(x) for x in scores]]
+        if name == "TreeScore":
+            t = self.build(op[1])
+            if op[2]:
+                v = math.exp(sd.log_product_of_split_support_on_tree(t, include_external_splits=op[3]))
+            else:
+                v = sd.sum_of_split_support_on_tree(t, include_external_splits=op[3])
+            return ["UQList", [qfloat(v)]]
+        if name == "SupportIter":
+            t = self.build(op[1])
+            vals = list(sd.split_support_iter(t, include_external_splits=op[3],
+                                              traversal_strategy="postorder" if op[2] else "preorder"))
+            return ["UQList", [qfloat(v) for v in vals]]
+        if name == "FreqOfBip":
+            tl = self.dp.TreeList(taxon_namespace=self.ns)
+            for i in op[1]:
+                tl.append(self.build(i))
+            return ["UQ", qfloat(tl.frequency_of_bipartition(split_bitmask=op[2]))]
+        if name == "SetFreqs":
+            fr_ = self.ta.split_bitmask_set_frequencies()
+            return ["USetFreqs", [[sorted(k), qfloat(v)] for k, v in fr_.items()]]
         if name == "LenSummaries":
             res = []
             for s, sm in sd.split_edge_length_summaries.items():
@@ -479,8 +566,8 @@ def observe(case):
     lib = Lib(case)
     pool = []
     for i in range(len(case["pool"])):
-        recs, leafset_mask, st = lib.encoded_copy(i)
-        pool.append({"recs": recs, "leafset": leafset_mask, "stree": st})
+        recs, leafset_mask, st, unrooted_after = lib.encoded_copy(i)
+        pool.append({"recs": recs, "leafset": leafset_mask, "stree": st, "unrooted_after": unrooted_after})
     steps = []
     for op in case["ops"]:
         try:
@@ -489,7 +576,7 @@ def observe(case):
         except Exception as e:
             out = ["UErr", core.exc_enum(e), "%s: %s" % (type(e).__name__, str(e)[:120])]
         steps.append([out, lib.snapshot()])
-    return {"pool": pool, "steps": steps, "forwards": treearray_forwards()}
+    return {"pool": pool, "steps": steps, "forwards": treearray_forwards(), "all": lib.all, "bits": lib.bit}
 
 
 # ----------------------------------------------------------------------------
@@ -591,7 +678,46 @@ def close(a, b, tol=Fraction(1, 10 ** 9)):
     return abs(Fraction(a) - Fraction(b)) <= tol * (1 + abs(Fraction(b)))
 
 
+def expected_supports(t, rooted, ntax, freq, ext, postorder):
+    """supports of the nodes split_support_iter visits on spec tree t (seed node included; an
+    unrooted basal bifurcation is collapsed by encode_bipartitions: the internal root child
+    chosen by collapse_basal_bifurcation disappears)"""
+    full = frozenset(range(ntax))
+    to_del = None
+    if not rooted and len(t["kids"]) == 2:
+        a, b = t["kids"]
+        if len(b["kids"]) >= 2:
+            to_del = b
+        elif len(a["kids"]) >= 2:
+            to_del = a
+    out = []
+
+    def visit(n, is_root):
+        if n is to_del:
+            for k in n["kids"]:
+                visit(k, False)
+            return
+        mine = None
+        if n["kids"] or ext:
+            if is_root:
+                mine = Fraction(1)
+            else:
+                s = leafset(n)
+                k = s if rooted else ((full - s) if 0 in s else s)
+                mine = freq.get(k, Fraction(0))
+        if not postorder and mine is not None:
+            out.append(mine)
+        for k in n["kids"]:
+            visit(k, False)
+        if postorder and mine is not None:
+            out.append(mine)
+    visit(t, True)
+    return out
+
+
 def oracle(case, obs):
+    if not in_quantifier(case):
+        return None
     ntax = case["ntax"]
     spec = Spec(case)
     full = frozenset(range(ntax))
@@ -606,6 +732,20 @@ def oracle(case, obs):
             for i, w in op[1]:
                 spec.occ.append((i, spec.weight(w)))
         if name in ("Count", "Update"):
+            continue
+        if name == "FreqOfBip" and not err:
+            rs = set(case["pool"][i]["rooting"] for i in op[1])
+            if len(rs) == 1 and next(iter(rs)) in (True, False) and op[1]:
+                r_ = next(iter(rs)) is True
+                k = spec.key_of_mask(op[2], True)
+                if k is not None:
+                    if not r_ and 0 in k:
+                        k = full - k
+                    n_has = sum(1 for i in op[1] if k in spec_splits(case["pool"][i]["tree"], r_, ntax))
+                    want = Fraction(n_has, len(op[1]))
+                    if not close(unfr(out[1]), want, Fraction(1, 10 ** 12)):
+                        return ("step %d: frequency_of_bipartition(split_bitmask=%d) = %s over %d trees, %d of them contain the split"
+                                % (step_no, op[2], float(unfr(out[1])), len(op[1]), n_has), "frequency_of_bipartition")
             continue
         tb = spec.table()
         if tb is None:
@@ -777,6 +917,41 @@ def oracle(case, obs):
                 for tx, d in out[2]["tip"]:
                     if d is None or unfr(d) != want[tx]:
                         return ("%s: collapse changed the root-to-tip distance of taxon %d: %s -> %s" % (where, tx, want[tx], d), "collapse-tip-distance")
+        if name in ("TreeScore", "SupportIter") and not err:
+            tr = case["pool"][op[1]]["rooting"] is True
+            if tr != rooted:
+                continue
+            if name == "TreeScore":
+                exp_ = expected_supports(case["pool"][op[1]]["tree"], rooted, ntax, freq, op[3], False)
+                acc = Fraction(1) if op[2] else Fraction(0)
+                for f in exp_:
+                    if op[2]:
+                        if f != 0:
+                            acc *= f
+                    else:
+                        acc += f
+                if not close(unfr(out[1][0]), acc):
+                    return ("%s: %s of split supports on the tree is %s, exact %s"
+                            % (where, "product" if op[2] else "sum", float(unfr(out[1][0])), acc),
+                            fkey_findings() if fkey_findings() != "frequency" else "tree-score")
+            else:
+                exp_ = expected_supports(case["pool"][op[1]]["tree"], rooted, ntax, freq, op[3], op[2])
+                got_ = [unfr(x) for x in out[1]]
+                if len(got_) != len(exp_) or not all(close(a_, b_, Fraction(1, 10 ** 12)) for a_, b_ in zip(sorted(got_), sorted(exp_))):
+                    return ("%s: split_support_iter yields %s, the frequencies of the visited splits are %s"
+                            % (where, [float(x) for x in got_], [str(x) for x in exp_]),
+                            fkey_findings() if fkey_findings() != "frequency" else "support-iter")
+        if name == "SetFreqs" and not err:
+            groups = {}
+            for pi, w in spec.occ:
+                key = frozenset(spec_splits(case["pool"][pi]["tree"], rooted, ntax))
+                groups[key] = groups.get(key, Fraction(0)) + w
+            want = sorted(v / tot for v in groups.values())
+            got_ = sorted(unfr(v) for _k, v in out[1])
+            if len(want) != len(got_) or not all(close(a_, b_, Fraction(1, 10 ** 12)) for a_, b_ in zip(got_, want)):
+                return ("%s: split_bitmask_set_frequencies reports %s, the weighted topology frequencies are %s"
+                        % (where, [float(x) for x in got_], [str(x) for x in want]),
+                        fkey_findings() if fkey_findings() != "frequency" else "topology-frequencies")
         if name == "Scores" and not err:
             sc_raw = [unfr(x) for x in out[4]]
             idx = out[2]
@@ -901,6 +1076,10 @@ def c_out(o):
     if k == "UScores":
         return "(UScores %s %s %s)" % (clist([q(x) for x in o[1]]), copt(o[2], cnat),
                                        clist([cz(x) for x in o[3]]))
+    if k == "UQList":
+        return "(UQList %s)" % clist([q(x) for x in o[1]])
+    if k == "USetFreqs":
+        return "(USetFreqs %s)" % clist([cpair(clist([cz(x) for x in ks]), q(v)) for ks, v in o[1]])
     if k == "USummaries":
         items = []
         for s, mean, med, sd_, rng_, _var in o[1]:
@@ -925,7 +1104,26 @@ def c_threshold(th):
     return "(Some (Some %s))" % cq(Fraction(th[0], th[1]))
 
 
-def c_op(op):
+def c_op2(op, obs_idx=None):
+    n = op[0]
+    if n == "TreeScore":
+        return "(OTreeScore %s %s %s)" % (cnat(op[1]), cbool(op[2]), cbool(op[3]))
+    if n == "SupportIter":
+        return "(OSupportIter %s %s %s)" % (cnat(op[1]), cbool(op[2]), cbool(op[3]))
+    if n == "FreqOfBip":
+        return "(OFreqOfBip %s %s)" % (clist([cnat(i) for i in op[1]]), cz(op[2]))
+    if n == "SetFreqs":
+        return "OSetFreqs"
+    return "(O1 %s)" % c_op(op, obs_idx)
+
+
+def c_out2(o):
+    if o[0] in ("UQList", "USetFreqs"):
+        return c_out(o)
+    return "(U1 %s)" % c_out(o)
+
+
+def c_op(op, obs_idx=None):
     n = op[0]
     if n == "Count":
         return "(OCount %s %s)" % (cnat(op[1]), oq(op[2]))
@@ -947,7 +1145,7 @@ def c_op(op):
         th = op[2]
         return "(OCollapse %s %s)" % (cnat(op[1]), "None" if th == "default" else "(Some %s)" % cq(Fraction(th[0], th[1])))
     if n == "Scores":
-        return "(OScores %s %s)" % (cbool(op[1]), cbool(op[2]))
+        return "(OScores %s %s %s)" % (cbool(op[1]), cbool(op[2]), copt(obs_idx, cnat))
     if n == "LenSummaries":
         return "OLenSummaries"
     raise ValueError(op)
@@ -976,16 +1174,18 @@ def to_coq(case, obs):
     env = "(mkEnv %s (mkCfg %s %s %s %s) %s %s %s %s %s)" % (
         "PathSD" if case["path"] == "sd" else "PathTA",
         cbool(cfg["ignore_len"]), cbool(cfg["ignore_ages"]), cbool(cfg["use_w"]), oq(cfg["default_len"]),
-        cbool(obs["forwards"]), cz((1 << ntax) - 1), clist([cz(1 << k) for k in range(ntax)]),
+        cbool(obs["forwards"]), cz(obs["all"]), clist([cz(b) for b in obs["bits"]]),
         clist(pool), clist(targets))
     ops = []
     exp = []
     for op, (out, snap) in zip(case["ops"], obs["steps"]):
         if has_unrepresentable(out) or has_unrepresentable(snap):
             break
-        ops.append(c_op(op))
-        exp.append(cpair(c_out(out), c_snap(snap)))
-    return "(mkCase %s %s %s %s)" % (env, obool(case["init_rooting"]), clist(ops), clist(exp))
+        ops.append(c_op2(op, out[2] if (op[0] == "Scores" and out[0] == "UScores") else None))
+        exp.append(cpair(c_out2(out), c_snap(snap)))
+    ua = clist([obool(o["unrooted_after"]) for o in obs["pool"]])
+    return "(mkCase2 %s %s %s %s %s %s)" % (env, ua, cbool(in_quantifier(case)), obool(case["init_rooting"]),
+                                            clist(ops), clist(exp))
 
 
 def nontrivial(case, obs):
@@ -1142,7 +1342,8 @@ def run(tier, seed, replay=None):
         "model coq/Model/C05Model.v is a hand transcription of SplitDistribution / SplitDistributionSummarizer / TreeArray scoring / Tree.from_split_bitmasks / statistics; tied by this correspondence run and by Gen/Consts.v, Gen/BitFns.v",
         "exact rational arithmetic; binary64 rounding is outside the model (frequencies compared within 1e-12, means/variances/scores within 1e-9 relative)",
         "per-tree bipartition records (split bitmask, edge length, node age) are inputs observed from the library's own encoding (C01/C17); the consensus theorems assume each tree's clades are pairwise compatible and distinct - checked on every generated input by case_hyps",
-        "log-product scores are modelled as exact products; hpd95 and 5/95 quantiles are not modelled",
+        "log-product scores are modelled as exact products; hpd95 and 5/95 quantiles are outside exact arithmetic and not modelled",
+        "namespaces with vacated bits and trees on a subset of the taxa are outside the property's quantifier: they are run through the correspondence only (the oracle and the namespace hypotheses are skipped for them)",
     ]
     if replay:
         import json
@@ -1160,6 +1361,7 @@ def run(tier, seed, replay=None):
         cases.extend(exhaustive_cases(ctx.rng))
     for c in cases:
         ctx.count("path:" + c["path"])
+        ctx.count("in-quantifier" if in_quantifier(c) else "outside-quantifier(vacated bits / partial trees; correspondence only)")
         ctx.count("ntax:%d" % c["ntax"])
         ctx.count("rooting:%s" % ",".join(sorted(set(str(p["rooting"]) for p in c["pool"]))))
         ctx.count("trees:%d" % (10 * (sum(1 if o[0] == "Count" else len(o[1]) if o[0] == "Update" else 0 for o in c["ops"]) // 10)))
@@ -1178,8 +1380,8 @@ def run(tier, seed, replay=None):
                 ctx.count("consensus:%s:%d-clades" % ("majority" if (op[1] not in ("default", None) and 2 * op[1][0] > op[1][1]) else "greedy", min(len(out[1]), 5)))
         return obs
 
-    core.corr_stage(ctx, cases, observe_counting, to_coq, HEADER, "case_ok", oracle=oracle,
-                    show_fn="case_run", nontrivial=nontrivial, search=search, shard=32 if tier == "quick" else 120,
+    core.corr_stage(ctx, cases, observe_counting, to_coq, HEADER, "case2_ok", oracle=oracle,
+                    show_fn="case2_run", nontrivial=nontrivial, search=search, shard=32 if tier == "quick" else 120,
                     sample_fn=sample_fn)
     return ctx.finish(level="proof",
-                      rule="fixed probe cases + random op histories: 1-40 tree occurrences drawn with skewed multiplicities from a pool of 1-5 trees over 4-12 taxa spanning the namespace, rooted/unrooted/undefined/mixed rooting, dyadic or absent weights, SplitDistribution or TreeArray path, interleaved count/update/query/calc, thresholds k/ntrees or p/q (q<=20), default and None, every set_edge_lengths mode, percentages, labels, collapse, scores; thorough adds multisets of 3 trees over all 4-taxon shapes x thresholds k/6; a case is non-trivial when >=2 distinct pool trees were counted and some cached frequency lies strictly between 0 and 1; distinct by full case content")
+                      rule="fixed probe cases + random op histories: 1-40 tree occurrences drawn with skewed multiplicities from a pool of 1-5 trees over 4-12 taxa spanning the namespace, rooted/unrooted/undefined/mixed rooting, dyadic or absent weights, SplitDistribution or TreeArray path, interleaved count/update/query/calc, thresholds k/ntrees or p/q (q<=20), default and None, every set_edge_lengths mode, percentages, labels, collapse, array scores, per-tree scores, split_support_iter, frequency_of_bipartition, topology frequencies; ~15% of the cases use a namespace with vacated bits and/or trees on a subset of the taxa (correspondence only); thorough adds multisets of 3 trees over all 4-taxon shapes x thresholds k/6; a case is non-trivial when >=2 distinct pool trees were counted and some cached frequency lies strictly between 0 and 1; distinct by full case content")
